@@ -526,6 +526,44 @@ def run_ast_cases(ctx, conn, n):
         ctx.violation(f'c05.invalid_statement_accepted.ast-{fault}', f'hand-built AST with fault {fault} accepted', case)
 
 
+HISTORY_POOL = [
+    'PRINT', 'PRINT FROM year = 2020', 'PRINT FROM nosuch = 1', 'PRINT FROM sum(number) > 1', 'BALANCES', 'BALANCES AT cost FROM year = 2020', 'BALANCES AT nosuch',
+    'JOURNAL "Assets"', 'JOURNAL "Assets" AT units FROM flag = "*"', 'JOURNAL AT', 'SELECT account', 'SELECT account, sum(position) GROUP BY account',
+    'SELECT account, number WHERE number > 0 ORDER BY balance', 'SELECT type FROM #entries', 'SELECT account FROM #entries', 'SELECT i FROM #t', 'SELECT account FROM #t',
+    'SELECT account FROM #accounts', 'SELECT number FROM #accounts', 'SELECT * FROM (SELECT account, number)', 'SELECT nosuch FROM (SELECT account, number)',
+    'SELECT account WHERE account IN (SELECT account FROM #accounts)', 'SELECT account WHERE account IN (SELECT nosuch FROM #accounts)', 'SELECT date FROM CLOSE ON 2020-06-01',
+    'SELECT date FROM OPEN ON 2021-01-01 CLOSE ON 2020-01-01', 'SELECT currency, name FROM #commodities', 'SELECT name FROM #commodities', 'SELECT weight, position',
+    'SELECT i, s FROM #t GROUP BY i', 'SELECT count(*), account', 'SELECT %s', 'SELECT account WHERE number > %s', 'SELECT', 'SELECT 2020-02-30',
+]
+
+
+def run_history(ctx, n):
+    """Verdicts do not depend on what the connection compiled or executed before: a series of statements of every kind
+    (accepted and refused, over every table, compile only or executed) on one connection; each verdict equals the verdict of
+    the same statement on a new connection."""
+    rng = ctx.rng('history', n)
+    led = ledgers.gen_ledger(rng, ntxn=5)
+    mt = gen.gen_table(rng, 't', max_rows=5)
+    conn = engine.connection([mt], ledger=led.loaded)
+    history = []
+    for _ in range(rng.randint(4, 12)):
+        text = rng.choice(HISTORY_POOL)
+        execute = rng.random() < 0.5
+        params = [1] if '%s' in text else None          # (a missing parameter container is a TypeError by design: not probed here)
+        got = attempt(conn, text, params, execute=execute)
+        exp = attempt(engine.connection([mt], ledger=led.loaded), text, params, execute=execute)
+        history.append(text)
+        ctx.count('obs.history_statements')
+        ctx.case(('history', tuple(history), execute), len(history) >= 2)
+        case = {'replay': ['history', n], 'history': list(history), 'text': text}
+        if got[1] not in ('ok', 'ParseError', 'CompilationError', 'ProgrammingError'):
+            ctx.violation(f'c05.history.wrong_exception_class.{got[1]}', f'{text!r} after {history[:-1]}: {type(got[2]).__name__}: {got[2]}', case)
+            return
+        if (got[0], got[1]) != (exp[0], exp[1]):
+            ctx.violation('c05.verdict_depends_on_history', f'{text!r} after {history[:-1]}: {got[0]}: {got[1]} ({got[2]}); on a new connection {exp[0]}: {exp[1]}', case)
+            return
+
+
 def make_conn(rng):
     led = ledgers.gen_ledger(rng, ntxn=6)
     mt = gen.gen_table(rng, 't', max_rows=6)
@@ -546,6 +584,10 @@ def run(ctx):
         if ctx.out_of_time():
             break
         run_ast_cases(ctx, conn, n)
+    for n in range(ctx.pick(25, 600)):
+        if ctx.out_of_time():
+            break
+        run_history(ctx, n)
 
 
 def replay(ctx, case):
@@ -553,6 +595,9 @@ def replay(ctx, case):
     conn = make_conn(ctx.rng('conn'))
     if case and 'replay' in case:
         part, n = case['replay']
+        if part == 'history':
+            run_history(ctx, n)
+            return
         (run_robustness if part == 'robust' else run_ast_cases)(ctx, conn, n)
     elif case:
         print(attempt(conn, case['text'], eval(case['params']) if case.get('params') else None, execute=True))
@@ -565,6 +610,8 @@ def finalize(merged):
         reasons.append('injector list not completely executed')
     if c.get('obs.reused_statement_compilations', 0) == 0:
         reasons.append('no re-used parsed statement compiled')
+    if c.get('obs.history_statements', 0) == 0:
+        reasons.append('no connection history compiled')
     if c.get('obs.locations_validated', 0) == 0:
         reasons.append('no error location validated')
     if c.get('obs.valid_accepted', 0) == 0 or c.get('obs.invalid_rejected', 0) == 0:
